@@ -105,7 +105,7 @@ def _native_secret_in_text(pre, post, raised):
             out.extend(material(v, depth + 1))
         return out
     text = str(raised) + repr(raised)
-    for m in material(pre.get('obj')):
+    for m in [x for a in pre.values() for x in material(a)]:
         if m and (binascii.hexlify(m).decode() in text or repr(m) in text):
             return "the %s raised carries the secret bytes in its text: %s" % (type(raised).__name__, text[:120])
     return True
